@@ -30,6 +30,7 @@ EXPLANATION = (
     "expr_transf hands every node to the driver (R8); open comprehensions are registered as a stack "
     "that get_load_name consults entirely (R9); the statement driver's namespace stack and "
     "generate_nsp pair every statement with the namespace of its scope (R10, R11)."
+    ' R4 computes the condition under which a population site is reached from every way of getting there (if/elif arms, arms left through continue/break/return/raise, hoisted predicates put back) and evaluates it on all symbol models (incl. imported names); R5 also requires the class-dict fallback to be lazy; R9 judges on a timeline which parts of a comprehension are rewritten while its targets are registered (only the first iterable may be outside); R11 also requires every scope kind without a statement of its own (lambda, listcomp, setcomp, dictcomp, genexpr) to be passed over; R12 no converter-built name reaches the rewriter.'
 )
 ASSUMPTIONS = [
     "symtable classifies each concrete program as CPython's compiler does (not decided here)",
